@@ -11,7 +11,7 @@ use super::Info;
 use super::InterfaceDescription;
 
 /// `org.varlink.service` interface methods.
-#[derive(Debug, Serialize, Deserialize)]
+#[derive(Debug, Serialize)]
 #[serde(tag = "method", content = "parameters")]
 pub enum Method<'a> {
     /// Get information about the Varlink service.
@@ -23,6 +23,35 @@ pub enum Method<'a> {
         /// The interface to get the description for.
         interface: &'a str,
     },
+}
+
+// `GetInfo` takes no parameters. A client may say so by leaving the `parameters` member out, or by
+// sending `null` or an empty object, so the derived implementation (which refuses the latter for a
+// unit variant) can not be used directly.
+impl<'de: 'a, 'a> Deserialize<'de> for Method<'a> {
+    fn deserialize<D>(deserializer: D) -> core::result::Result<Self, D::Error>
+    where
+        D: serde::Deserializer<'de>,
+    {
+        #[derive(Deserialize)]
+        struct NoParameters {}
+
+        #[derive(Deserialize)]
+        #[serde(tag = "method", content = "parameters")]
+        enum Helper<'a> {
+            #[serde(rename = "org.varlink.service.GetInfo")]
+            GetInfo(Option<NoParameters>),
+            #[serde(rename = "org.varlink.service.GetInterfaceDescription")]
+            GetInterfaceDescription { interface: &'a str },
+        }
+
+        Ok(match Helper::deserialize(deserializer)? {
+            Helper::GetInfo(_) => Method::GetInfo,
+            Helper::GetInterfaceDescription { interface } => {
+                Method::GetInterfaceDescription { interface }
+            }
+        })
+    }
 }
 
 /// `org.varlink.service` interface replies.
